@@ -23,7 +23,11 @@ fn nasty(r: &mut Rng) -> String {
     s
 }
 pub fn gen_duration(r: &mut Rng) -> Duration {
-    match r.below(8) {
+    match r.below(11) {
+        // every unit at once: days (months, years) together with a sub-second part
+        8 => Duration::new(86400 * r.below(800) + r.below(86400), *r.pick(&[500_000_000u32, 6_000_000, 1, 999_999_999, 1_000, 0])),
+        9 => Duration::new(r.below(1u64 << 36), r.below(1_000_000_000) as u32),
+        10 => Duration::new(*r.pick(&[59u64, 60, 3599, 3600, 86399, 86400, 2_629_999, 2_630_016, 31_557_599, 31_557_600, 31_557_601]) + r.below(2), *r.pick(&[0u32, 1_000_000, 999_000_000])),
         0 => Duration::from_millis(r.below(5000)), 1 => Duration::from_secs(r.below(200000)), 2 => Duration::from_secs(86400 * r.below(800)),
         3 => Duration::new(r.below(100), r.below(1_000_000_000) as u32), 4 => Duration::from_secs(900), 5 => Duration::from_millis(900_500), 6 => Duration::from_secs(31_557_600 * r.below(5) + r.below(3)),
         _ => Duration::from_secs(r.below(1u64 << 40)),
